@@ -52,6 +52,10 @@ def instances(tier):
         out.append({"name": f"diffuse_agrees_r{nrec}", "func": "run_diffuse", "kwargs": {"nfft": 4, "L": 3, "nrec": nrec}})
     for nfft in (4, 8):
         out.append({"name": f"derivative_n{nfft}", "func": "run_derivative", "kwargs": {"nfft": nfft}})
+    # one settings object used for short windows first and for longer windows afterwards (the FFT length recorded by the first
+    # run must not crop the second), and an explicit FFT length shorter than the windows
+    out.append({"name": "settings_reused_short_then_long", "func": "run_settings_reuse", "kwargs": {"explicit": False}})
+    out.append({"name": "explicit_fft_length_shorter_than_window", "func": "run_settings_reuse", "kwargs": {"explicit": True}})
     out.append({"name": "flat_response", "func": "run_flat", "kwargs": {"nfft": 4, "L": 4}})
     out.append({"name": "flat_response_padded", "func": "run_flat", "kwargs": {"nfft": 8, "L": 3}})
     out.append({"name": "psd_preprocess_differentiate", "func": "run_preprocess", "kwargs": {}})
@@ -114,6 +118,35 @@ def run_parseval(rep, tier, nfft, L):
         if not ok:
             rep.inconclusive.append("frequency vector of the unsmoothed PSD is not the FFT grid")
         rep.sample({"n_fft": nfft, "L": L})
+
+
+def run_settings_reuse(rep, tier, explicit):
+    Ld = LD(4)
+    P, S = Ld["processing"], Ld["settings"]
+    Ls, Ll = 3, 7
+
+    def run(ctx):
+        a, b = PP.samples("a", Ls, ctx), PP.samples("b", Ll, ctx)
+        st = psd_settings(S, 4, False)
+        if explicit:
+            st.fft_settings = {"n": 4}
+        else:
+            call_rpsd(P, [PP.mkrec(Ld, ctx, "a", Ls, DT, comps=a)], st)            # records n = 4 in the settings object
+        res = call_rpsd(P, [PP.mkrec(Ld, ctx, "b", Ll, DT, comps=b)], st)
+        ref = call_rpsd(P, [PP.mkrec(Ld, ctx, "b", Ll, DT, comps=b)], psd_settings(S, 4, False))
+        return a, b, res, ref, st.fft_settings
+
+    for ctx, (a, b, res, ref, fft) in rep.explore(run, max_paths=40, timeout_ms=1500):
+        bad = []
+        for c in ("ns", "ew", "vt"):
+            g, w_ = list(res[c].amplitude), list(ref[c].amplitude)
+            bad += [z3.BoolVal(True)] if len(g) != len(w_) else [Sym.lift(x) != Sym.lift(y) for x, y in zip(g, w_)]
+        rep.prove(ctx, ("an explicit FFT length shorter than the windows" if explicit else "the FFT length left in a reused settings object by shorter windows") +
+                  " does not crop the windows: same PSD as with fresh settings", bad,
+                  witness=wit([b], {"nfft": 4, "what": "settings-reuse", "explicit": explicit, "short": {c: [0.5 + 0.25 * j for j in range(Ls)] for c in ("ns", "ew", "vt")},
+                                    "op": "linear_triangular", "bw": 1, "fcs": [], "method": None}), key="fft-length-crops-windows",
+                  shape=[z3.And(v.e >= qval(0.5) + qval(0.25) * j, v.e <= 3 + qval(0.25) * j) for c in ("ns", "ew", "vt") for j, v in enumerate(b[c])])
+        rep.sample({"fft_settings_after": fft})
 
 
 def run_welch(rep, tier, nfft, L, nwin):
@@ -287,6 +320,20 @@ def replay(spec):
                 st.smoothing = None
             return hv.rpsd(recs, st)
         what = spec["what"]
+        if what == "settings-reuse":
+            st = hv.PsdProcessingSettings(**kw)
+            st.smoothing = None
+            if spec.get("explicit"):
+                st.fft_settings = {"n": 4}
+            else:
+                hv.rpsd([hv.SeismicRecording3C(*[hv.TimeSeries(np.array(spec["short"][c], dtype=float), DT) for c in ("ns", "ew", "vt")])], st)
+            got, ref = hv.rpsd(mk(), st), psd_of(mk())
+            for c in ("ns", "ew", "vt"):
+                g, w_ = np.asarray(got[c].amplitude, dtype=float), np.asarray(ref[c].amplitude, dtype=float)
+                if g.shape != w_.shape or not np.allclose(g, w_, rtol=1e-9, equal_nan=True):
+                    return {"reproduced": True, "key": "fft-length-crops-windows",
+                            "detail": f"{c}: PSD with {'explicit n=4' if spec.get('explicit') else 'settings reused after shorter windows'} (fft_settings {st.fft_settings}) has {g.tolist()}, with fresh settings {w_.tolist()}"[:400]}
+            return {"reproduced": False, "detail": "same PSD as with fresh settings"}
         if what == "parseval":
             res = psd_of(mk())
             for c in ("ns", "ew", "vt"):
